@@ -70,6 +70,9 @@ bad = False
 for cp, e in zip(res["checkpoints"], exp):
     coords = np.array([[float.fromhex(v) for v in row] for row in res["snapshots"][cp["snapshot"]]])
     Fv = np.array(cp["F"]); unk = cp["all_unknowns"]; c = np.array(e["center"]); tol = %(tol)r * e["scale"]; tolM = %(tol)r * e.get("scaleM", e["scale"])
+    if not e["R"] and not cp["active"] and np.any(Fv != 0):
+        print("checkpoint after op", cp["op"], ": no load is active (boundary conditions re-initialised) but the load vector is not zero: column sums", Fv.sum(axis=0).tolist())
+        bad = True
     for u, R in e["R"].items():
         col = Fv[:, unk.index(u)]
         r = col.sum()
@@ -256,6 +259,8 @@ def gen_sequences(ctx, first_id):
                  # order of otherwise independent public calls (point location / measures / normals / assembly before loads),
                  # on plain, moved and MIRRORED meshes
                  "query-then-load", "move-query-load", "mirror-query-load",
+                 # simu.mesh = <mesh with the SAME topology (translated copy)>: no load may survive the replacement
+                 "replace-same-topology",
                  # scaled twins: the same plate/solid at length units 2^-10, 2^-20, 2^-30 (~1e-3, 1e-6, 1e-9) and 2^10
                  "scaled-twin:-10", "scaled-twin:-20", "scaled-twin:-30", "scaled-twin:10"]
     out = []
@@ -353,6 +358,14 @@ def gen_sequences(ctx, first_id):
         elif tpl == "double-move":
             seq = [load("surf", face(ax), "const"), {"op": "bc_init"}, move(), load("volume", everything(), "poly"), {"op": "bc_init"}, recoord()]
             seq += [load("surf", face(ax), "poly"), load("line" if dim == 2 else "surf", face((ax + 1) % dim), "nodal"), {"op": "check", "fresh": True}]
+        elif tpl == "replace-same-topology":
+            seq = [load("surf", face(ax), "poly"), load("volume", everything(), "const"), {"op": "check"}]
+            d = [F(rng.randint(-12, 12), 2) if a < dim else F(0) for a in range(3)]
+            if all(x == 0 for x in d):
+                d[0] = F(3)
+            seq += [{"op": "set_mesh", "mesh": mesh, "translate": [float(x) for x in d]}, {"op": "check"}]   # nothing re-applied yet: F must be 0
+            st["sh"] = list(d)
+            seq += [load("surf", face(ax), "poly"), load("volume", everything(), "poly"), {"op": "check", "fresh": True}]
         elif tpl == "query-then-load":
             seq = [{"op": "query"}, load("volume", everything(), "poly"), load("surf", face(ax), "poly"), {"op": "check", "fresh": True}]
         elif tpl == "move-query-load":
